@@ -1,6 +1,7 @@
 (* C09 -- records held by a node replicate to in-range neighbours and replicas converge.
    Only pinned statements, `exact <lemma>` (or a two-line wrapper) live here.
-   H : the content hash used in record-type tags, ANY function (no collision-freedom needed). *)
+   H : the content hash used in record-type tags, ANY function (no collision-freedom needed).
+   D : the distance between a node and a key, ANY function. *)
 From Coq Require Import List NArith Bool.
 From Coq Require Import Permutation.
 From V Require Import model.Replication proofs.Replication.
@@ -23,28 +24,44 @@ Proof. exact replicate_msgs_spec. Qed.
 
 (* a list from a holder that is not among the K closest peers, or that names this node itself, is
    ignored: no state change, no fetch *)
-Theorem acts_only_on_close_holders : forall n h keys,
-  mem h (closest n) = false \/ h = self n -> on_replicate n h keys = (n, []).
+Theorem acts_only_on_close_holders : forall D n h keys,
+  mem h (closest n) = false \/ h = self n -> on_replicate D n h keys = (n, []).
 Proof. exact far_holder_ignored. Qed.
+
+(* ... where "the K closest" is the node itself plus the K_VALUE - 1 nearest routing-table peers, for every
+   table (any size, distinct peers at distinct distances): a table peer at distance d is acted on exactly
+   when fewer than K_VALUE - 1 table peers are strictly nearer (so the (K_VALUE-1)-th nearest is the last
+   one accepted and the K_VALUE-th nearest the first one ignored); a holder outside the table never is *)
+Theorem acts_only_on_k_closest : forall n h,
+  (forall d, NoDup (map fst (table n)) -> NoDup (map snd (table n)) -> In (h, d) (table n) -> h <> self n ->
+     (accepts_holder n h = true <-> (nearer n d < N.to_nat KVAL - 1)%nat)) /\
+  (accepts_holder n h = true -> In h (map fst (table n)) /\ h <> self n) /\
+  (forall D keys, accepts_holder n h = false -> on_replicate D n h keys = (n, [])) /\
+  KVAL = 20.
+Proof.
+  intros n h. split; [intros d; apply accepts_holder_rank|]. split; [apply accepts_holder_in_table|].
+  split; [|exact repl_k_value_pinned]. intros D keys Ha. unfold on_replicate. rewrite Ha. reflexivity.
+Qed.
 
 (* handling a list changes no stored record, and asks the holder only for advertised keys the node
    does not hold and is not already fetching *)
-Theorem fetches_only_unheld : forall n h keys n' out,
-  on_replicate n h keys = (n', out) ->
-  held n' = held n /\ self n' = self n /\ closest n' = closest n /\ cands n' = cands n /\
+Theorem fetches_only_unheld : forall D n h keys n' out,
+  on_replicate D n h keys = (n', out) ->
+  held n' = held n /\ self n' = self n /\ table n' = table n /\ cands n' = cands n /\
+  store_range n' = store_range n /\ fetch_range n' = fetch_range n /\
   forall m, In m out -> exists x, m = Fetch (self n) h (fst x) /\ In x keys /\
                                   lookup (fst x) (held n) = None /\ kt_mem x (inflight n) = false.
 Proof. exact on_replicate_spec. Qed.
 
-(* a chunk held by a is, after one exchange, held by the neighbour b under the same key with the
-   same content; nothing b held is touched *)
-Theorem immutable_replicates_identically : forall H a b k c,
+(* a chunk held by a is, after one exchange, held by the in-range neighbour b under the same key with
+   the same content; nothing b held is touched *)
+Theorem immutable_replicates_identically : forall H D a b k c,
   NoDup (map fst (held a)) -> accepts_holder b (self a) = true -> inflight b = [] ->
-  lookup k (held a) = Some (CChunk c) -> lookup k (held b) = None ->
-  lookup k (held (sync_from H a b)) = Some (CChunk c) /\
-  forall k' c', lookup k' (held b) = Some c' -> lookup k' (held (sync_from H a b)) = Some c'.
+  lookup k (held a) = Some (CChunk c) -> lookup k (held b) = None -> in_range D b k = true ->
+  lookup k (held (sync_from H D a b)) = Some (CChunk c) /\
+  forall k' c', lookup k' (held b) = Some c' -> lookup k' (held (sync_from H D a b)) = Some c'.
 Proof.
-  intros H a b k c Hnd Hacc Hif Ha Hb. split.
+  intros H D a b k c Hnd Hacc Hif Ha Hb Hr. split.
   - apply sync_gets_missing; auto.
   - intros k' c'. apply sync_keeps_held.
 Qed.
@@ -100,48 +117,97 @@ Proof.
   intros c d. apply pad_invalid_ignored.
 Qed.
 
-(* one exchange brings b every valid record of a that b lacks (any kind), leaves what b held *)
-Theorem sync_replicates_missing : forall H a b,
+(* one exchange brings b every valid record of a that b lacks (any kind) and that is within b's fetch
+   range, leaves what b held, adds nothing a does not hold, and -- unless the list carries exactly one new
+   key (the fast path of C08's F15) -- adds nothing beyond b's fetch range *)
+Theorem sync_replicates_missing : forall H D a b,
   NoDup (map fst (held a)) -> accepts_holder b (self a) = true -> inflight b = [] ->
   (forall k c, lookup k (held a) = Some c -> content_valid c = true -> lookup k (held b) = None ->
-     lookup k (held (sync_from H a b)) = Some c) /\
-  (forall k c, lookup k (held b) = Some c -> lookup k (held (sync_from H a b)) = Some c) /\
+     in_range D b k = true -> lookup k (held (sync_from H D a b)) = Some c) /\
+  (forall k c, lookup k (held b) = Some c -> lookup k (held (sync_from H D a b)) = Some c) /\
   (forall k, lookup k (held a) = None -> lookup k (held b) = None ->
-     lookup k (held (sync_from H a b)) = None).
+     lookup k (held (sync_from H D a b)) = None) /\
+  (forall k, lookup k (held b) = None -> in_range D b k = false ->
+     length (unheld b (advert H a)) <> 1%nat -> lookup k (held (sync_from H D a b)) = None).
 Proof.
-  intros H a b Hnd Hacc Hif. split; [|split].
-  - intros k c Ha Hv Hb. apply sync_gets_missing; auto.
+  intros H D a b Hnd Hacc Hif. split; [|split; [|split]].
+  - intros k c Ha Hv Hb Hr. apply sync_gets_missing; auto.
   - intros k c. apply sync_keeps_held.
   - intros k. apply sync_absent.
+  - intros k. apply sync_out_of_range_absent.
 Qed.
 
 (* periodic replication converges -- outside the known class (F16): two neighbours that hold no key
    in different versions hold, after one round, the same content under every key: all of a's
    records, and b's for the keys a lacked *)
-Theorem periodic_replication_converges_outside_known : forall H a b,
+Theorem periodic_replication_converges_outside_known : forall H D a b,
   NoDup (map fst (held a)) -> NoDup (map fst (held b)) ->
   accepts_holder b (self a) = true -> accepts_holder a (self b) = true ->
   inflight a = [] -> inflight b = [] -> all_valid a -> all_valid b ->
+  covers D b a -> covers D a b ->
   ~ KnownOtherVersion a b ->
-  forall k, lookup k (held (fst (round H (a, b)))) = lookup k (held (snd (round H (a, b)))) /\
-            lookup k (held (snd (round H (a, b)))) =
+  forall k, lookup k (held (fst (round H D (a, b)))) = lookup k (held (snd (round H D (a, b)))) /\
+            lookup k (held (snd (round H D (a, b)))) =
               match lookup k (held a) with Some c => Some c | None => lookup k (held b) end.
 Proof. exact round_converges. Qed.
 
 (* the unrestricted statement is refuted (F16): two neighbours holding different operation sets of
-   one register satisfy every other premise, and no number of rounds changes either store *)
-Theorem periodic_replication_converges_refuted : forall H,
+   one register satisfy every other premise (each is within the other's range: no range is set), and no
+   number of rounds changes either store *)
+Theorem periodic_replication_converges_refuted : forall H D,
   exists a b,
     (NoDup (map fst (held a)) /\ NoDup (map fst (held b)) /\
      accepts_holder b (self a) = true /\ accepts_holder a (self b) = true /\
-     inflight a = [] /\ inflight b = [] /\ all_valid a /\ all_valid b) /\
+     inflight a = [] /\ inflight b = [] /\ all_valid a /\ all_valid b /\
+     covers D b a /\ covers D a b) /\
     KnownOtherVersion a b /\
-    (forall n, Nat.iter n (round H) (a, b) = (a, b)) /\
+    (forall n, Nat.iter n (round H D) (a, b) = (a, b)) /\
     lookup 1 (held a) <> lookup 1 (held b).
 Proof.
-  intros H. exists f16_a, f16_b. split; [exact f16_premises|]. split; [exact f16_is_known|].
-  split; [exact (f16_never_converges H)|]. cbn. discriminate.
+  intros H D. exists f16_a, f16_b. split; [exact (f16_premises D)|]. split; [exact f16_is_known|].
+  split; [exact (f16_never_converges H D)|]. cbn. discriminate.
 Qed.
+
+(* ---- the responsible range ----
+   (i) wherever a record is put (LocalSwarmCmd::PutLocalRecord) the fetcher's range becomes exactly the
+   store's current range, whatever it was before -- an assignment: a larger range REPLACES a smaller one;
+   without a put the fetcher keeps its range (the lag), and handling a list never changes either *)
+Theorem range_sync_is_assignment : forall n k c r,
+  (store_range n = Some r -> puts (lookup k (held n)) c = true ->
+     fetch_range (accept n k c) = Some r /\ store_range (accept n k c) = Some r) /\
+  (puts (lookup k (held n)) c = false -> accept n k c = n) /\
+  (forall r', fetch_range (set_store_range n r') = fetch_range n) /\
+  (forall D h keys, fetch_range (fst (on_replicate D n h keys)) = fetch_range n /\
+                    store_range (fst (on_replicate D n h keys)) = store_range n).
+Proof.
+  intros n k c r. split; [apply accept_syncs|]. split; [apply accept_no_put|].
+  split; [reflexivity|]. intros D h keys. apply on_replicate_ranges.
+Qed.
+
+(* ... at the level of histories: after ANY sequence of range settings at node p followed by a stored
+   record, the fetcher of p works with the LAST value set *)
+Theorem range_history_last_wins : forall H D s p n rs r k c,
+  get_node p (nodes s) = Some n -> puts (lookup k (held n)) c = true ->
+  exists n', get_node p (nodes (run H D s (map (OSetRange p) (rs ++ [r]) ++ [OSeed p k c true]))) = Some n' /\
+             fetch_range n' = Some r /\ store_range n' = Some r.
+Proof. exact range_history_last_wins_lemma. Qed.
+
+(* (ii) every advertised entry from an accepted holder whose key is not held and lies within the fetcher's
+   range is in flight once the list has been handled (inside the parallel-fetch envelope the model works
+   in): it already was, or a fetch for it goes out to the advertising holder *)
+Theorem in_range_advert_is_fetched : forall D n h keys k t,
+  accepts_holder n h = true -> In (k, t) keys -> lookup k (held n) = None -> in_range D n k = true ->
+  kt_mem (k, t) (inflight (fst (on_replicate D n h keys))) = true /\
+  (kt_mem (k, t) (inflight n) = true \/ In (Fetch (self n) h k) (snd (on_replicate D n h keys))).
+Proof. exact in_range_is_fetched. Qed.
+
+(* (iii) from a list that does not have exactly one new key, nothing beyond the fetcher's range is fetched
+   or put in flight (the single-new-key list is C08's known class F15: regrow_example shows it) *)
+Theorem out_of_range_not_fetched : forall D n h keys,
+  length (unheld n keys) <> 1%nat ->
+  (forall k, In (Fetch (self n) h k) (snd (on_replicate D n h keys)) -> in_range D n k = true) /\
+  (forall x, In x (inflight (fst (on_replicate D n h keys))) -> In x (inflight n) \/ in_range D n (fst x) = true).
+Proof. exact out_of_range_not_fetched_lemma. Qed.
 
 (* fetches of different keys may complete in any order: the resulting store is the same map *)
 Theorem delivery_order_irrelevant_for_missing : forall n k1 c1 k2 c2, k1 <> k2 -> forall k,
@@ -149,10 +215,20 @@ Theorem delivery_order_irrelevant_for_missing : forall n k1 c1 k2 c2, k1 <> k2 -
 Proof. exact accept_commute. Qed.
 
 (* Composition with C08: inside the envelope, the full transcription of ReplicationFetcher::add_keys
-   (model/Fetcher.v, any hash-map iteration order) started from an idle queue fetches exactly
-   `wanted n [] keys` -- the abstraction `on_replicate` uses -- from the advertising holder, reports no
-   event and leaves queued only what the bridge calls `lingering` (advertised entries already in
-   flight). dist is any distance function, H any content hash. *)
+   (model/Fetcher.v, any hash-map iteration order) started from an idle queue WITH NO RANGE SET fetches
+   exactly `wanted n [] keys` -- what `on_replicate` fetches when the node's fetcher has no range
+   (on_replicate_without_range below) -- from the advertising holder, reports no event and leaves queued
+   only what the bridge calls `lingering` (advertised entries already in flight). dist is any distance
+   function, H any content hash.  With a range set, the filter of `on_replicate` is tied to the code by the
+   lock-step run, and C08 proves the range filter of the full transcription (multi_key_in_range). *)
+Theorem on_replicate_without_range : forall D n h keys,
+  fetch_range n = None ->
+  on_replicate D n h keys =
+  if accepts_holder n h
+  then (set_inflight n (inflight n ++ wanted n [] keys), map (fun x => Fetch (self n) h (fst x)) (wanted n [] keys))
+  else (n, []).
+Proof. exact on_replicate_no_range. Qed.
+
 Module F := V.model.Fetcher.
 Module B := V.proofs.FetcherBridgeRepl.
 Theorem on_replicate_matches_fetcher_model :
